@@ -295,10 +295,11 @@ package base
 //@   props C08, C09, C02
 //@   requires geomOK(la) && slotBucketsOK(la) && now < 4611686018427387904
 //@   requires[generator-owns-array]{C09} ownsArray(bg, la)
-// C09 (thread-modular): other recorders may refresh any bucket between this thread's atomic reads (every bucket start
-// is volatile); whatever they do, this call leaves the update lock as it found it on every return path (a lock
-// that is taken and never released makes every later rollover spin for ever)
-//@   concurrent C09
+// C09: verified twice — for one thread alone (every clause below), and thread-modularly: other recorders may refresh
+// any bucket between this thread's atomic reads (every bucket start is volatile); whatever they do, this call leaves
+// the update lock as it found it on every return path (a lock that is taken and never released makes every later
+// rollover spin for ever)
+//@   concurrent C09 and sequential
 //@   shared la.array.data[0].BucketStart
 //@   ensures[update-lock-released-on-return]{C09} lockframe()
 //@   ensures[a-bucket-or-an-error]{C09} now > 0 ==> ((err == nil) <==> (w != nil)) && (err != nil ==> la.sampleCount != 1)
@@ -317,8 +318,8 @@ package base
 //@   ensures[other-values] forall i Int :: 0 <= i && i < la.array.length && i != idx && la.array.data[i] != nil ==> stored(la.array.data[i].Value) == old(stored(la.array.data[i].Value))
 //@   modifies elems(la.array.data), cur.BucketStart, fields(bucketOf(cur))
 //@   loop 1:
-//@     invariant[untouched]{C08,C02} frame()
-//@     invariant[untouched-except-bucket-starts]{C09} frame(all(BucketWrap.BucketStart))
+//@     invariant[untouched]{seq} frame()
+//@     invariant[untouched-except-bucket-starts]{conc} frame(all(BucketWrap.BucketStart))
 //@     invariant[update-lock-released] lockframe()
 
 // two times that share a slot but not a bucket are at least one whole array interval apart:
